@@ -79,7 +79,9 @@ def r_portaldir(idx, rep, rule="R-PORTALDIR"):
     m = idx.module(M)
     pd = idx.func(M + "::_portal_direction")
     rets = [st for st in iter_stmts(pd.node.body) if isinstance(st, ast.Return)]
-    s = "norm_vector(.)" if rets and all(isinstance(r.value, ast.Call) and (call_name(r.value) or "").split(".")[-1] == "norm_vector" for r in rets) else "not normalised"
+    # unit by construction: every return is norm_vector(.) or a helper whose own result is (sign lattice, interprocedural)
+    s = "norm_vector(.)" if rets and (sg.summary(pd) == "UNIT0" or all(isinstance(r.value, ast.Call) and (call_name(r.value) or "").split(".")[-1] == "norm_vector" for r in rets)) \
+        else "not normalised"
     rep.check(s == "norm_vector(.)", rule, pd.key + "|returns a unit vector", pd.where,
               "_portal_direction returns kind %s, not norm_vector(.): the stopping test `min((v4 - v_i) . dir) < mpr_tolerance` is then scaled by the portal's area, "
               "small shapes stop refining early (too small a depth), large ones late" % (s,), str(s))
@@ -90,6 +92,7 @@ def r_portaldir(idx, rep, rule="R-PORTALDIR"):
                 ok = False
                 if isinstance(a, ast.Name):
                     defs = [st.value for st in ast.walk(f.node) if isinstance(st, ast.Assign) and len(st.targets) == 1 and u(st.targets[0]) == a.id]
-                    ok = bool(defs) and all(isinstance(d, ast.Call) and (call_name(d) or "").split(".")[-1] in ("_portal_direction", "norm_vector") for d in defs)
+                    ok = bool(defs) and all(isinstance(d, ast.Call) and ((call_name(d) or "").split(".")[-1] in ("_portal_direction", "norm_vector")
+                                                                          or sg.kind(d, f, {}) == "UNIT0") for d in defs)
                 rep.check(ok, rule, "%s|direction of the reach test" % f.key, "%s:%d" % (m.relpath, c.lineno),
                           "the direction `%s` handed to _portal_reach_tolerance is not produced by _portal_direction / norm_vector on every definition" % u(a), "unit")
